@@ -41,7 +41,8 @@ def cases(tier):
                         if tier == "quick" and (df is not None and nk is not None and nk > 2):
                             continue
                         out.append(("bs", dk, (df, degree, intercept, nk)))
-    out += [("bs_bounds", kind, None) for kind in ("lower>upper", "knot<lower", "knot>upper", "knots2d", "df_float", "degree_float", "ok_bounds", "knots_unsorted_out_high", "knots_unsorted_out_low", "knots_unsorted_ok")]
+    out += [("bs_bounds", kind, None) for kind in ("lower>upper", "knot<lower", "knot>upper", "knots2d", "df_float", "degree_float", "ok_bounds", "knots_unsorted_out_high", "knots_unsorted_out_low", "knots_unsorted_ok",
+                                                    "lower_only_above_data", "upper_only_below_data", "lower_only_above_data_knots", "int_knots_list", "int_knots_array", "int_knots_tuple", "lower_only_ok", "upper_only_ok")]
     return out
 
 
@@ -276,11 +277,16 @@ def _harness(env, case):
             "lower>upper": ("bs(x, df=4, lower_bound=8, upper_bound=2)", True), "knot<lower": ("bs(x, knots=kn, lower_bound=5)", True), "knot>upper": ("bs(x, knots=kn, upper_bound=5)", True),
             "knots2d": ("bs(x, knots=kn2)", True), "df_float": ("bs(x, df=4.5)", True), "degree_float": ("bs(x, df=4, degree=2.0)", True), "ok_bounds": ("bs(x, df=5, lower_bound=-1, upper_bound=11)", False),
             "knots_unsorted_out_high": ("bs(x, knots=ku1)", True), "knots_unsorted_out_low": ("bs(x, knots=ku2)", True), "knots_unsorted_ok": ("bs(x, knots=ku3)", False),
+            # a single explicit bound on the wrong side of the data (the other bound comes from the data); integer knots
+            "lower_only_above_data": ("bs(x, 3, lower_bound=12)", True), "upper_only_below_data": ("bs(x, df=4, degree=3, intercept=True, upper_bound=-1)", True), "lower_only_above_data_knots": ("bs(x, knots=kn, lower_bound=12)", True),
+            "int_knots_list": ("bs(x, knots=ki)", False), "int_knots_array": ("bs(x, knots=kia)", False), "int_knots_tuple": ("bs(x, knots=kit)", False),
+            "lower_only_ok": ("bs(x, df=4, lower_bound=-2)", False), "upper_only_ok": ("bs(x, df=4, upper_bound=12)", False),
         }
         f, must = table[n]
         try:
             with env.running(False):
-                design_matrices(f"y ~ {f}", data, extra_namespace={"kn": [3.0, 6.0], "kn2": [[3.0], [6.0]], "ku1": [3.0, 12.5, 5.0], "ku2": [4.0, -2.0, 6.0], "ku3": [6.0, 2.0, 4.0]})
+                design_matrices(f"y ~ {f}", data, extra_namespace={"kn": [3.0, 6.0], "kn2": [[3.0], [6.0]], "ku1": [3.0, 12.5, 5.0], "ku2": [4.0, -2.0, 6.0], "ku3": [6.0, 2.0, 4.0],
+                                                                         "ki": [3, 6], "kia": np.array([2, 4, 7]), "kit": (3, 5)})
             ok = True
         except Exception:  # noqa
             ok = False
